@@ -1,1 +1,216 @@
-//! reference model `sgr` (filled in by the property that needs it)
+//! Reference SGR (Select Graphic Rendition) state machine.
+//!
+//! Written from ECMA-48 8.3.117, xterm ctlseqs ("Character Attributes (SGR)") and the
+//! kitty/VTE underline extension (`4:n`, `58`/`59`). No library code is used.
+//!
+//! Semantics: every attribute and every colour is an independent slot; a parameter sets or
+//! clears exactly its slot; parameters are applied left to right, so later ones override
+//! earlier ones; `0` (or an empty parameter) restores the default rendition.
+
+/// A CSI parameter: the main value followed by its ':' sub-parameters (`None` = omitted).
+pub type Param = Vec<Option<u64>>;
+
+#[derive(Debug, Clone, Copy, PartialEq, Eq, Hash, PartialOrd, Ord, Default)]
+pub enum Colour {
+    /// terminal default (SGR 39 / 49 / 59 or reset)
+    #[default]
+    Default,
+    /// palette entry 0..=255 (30-37, 90-97, 40-47, 100-107, x8;5;n)
+    Index(u8),
+    /// direct colour (x8;2;r;g;b and x8:2:[cs]:r:g:b)
+    Rgb(u8, u8, u8),
+}
+
+#[derive(Debug, Clone, Copy, PartialEq, Eq, Hash, PartialOrd, Ord, Default)]
+pub enum Underline {
+    #[default]
+    None,
+    Single,
+    Double,
+    Curly,
+    Dotted,
+    Dashed,
+}
+
+#[derive(Debug, Clone, Copy, PartialEq, Eq, Hash, PartialOrd, Ord, Default)]
+pub struct Rendition {
+    pub fg: Colour,
+    pub bg: Colour,
+    pub underline_colour: Colour,
+    pub bold: bool,
+    pub italic: bool,
+    pub blink: bool,
+    pub reverse: bool,
+    pub strike: bool,
+    pub underline: Underline,
+}
+
+/// What the interpreter could not give a meaning to (a check that demands "nothing else"
+/// wants this list to be empty).
+#[derive(Debug, Clone, PartialEq, Eq, Hash)]
+pub enum Note {
+    /// a valid SGR code whose attribute is not part of [Rendition] (faint, conceal, fonts, ...)
+    Unmodelled(u64),
+    /// an extended colour introducer without a complete, in-range colour
+    MalformedColour(u64),
+}
+
+fn byte(v: Option<u64>) -> Option<u8> {
+    // an omitted colour component counts as 0 (xterm), anything above 255 is out of range
+    u8::try_from(v.unwrap_or(0)).ok()
+}
+
+/// `38`/`48`/`58`: returns the colour and how many following ';' parameters were consumed.
+fn extended(params: &[Param], at: usize) -> (Option<Colour>, usize) {
+    let head = &params[at];
+    if head.len() > 1 {
+        // ':' form, everything is inside this parameter: 5:n | 2:r:g:b | 2:cs:r:g:b[:tolerance..]
+        let colour = match head[1] {
+            Some(5) if head.len() >= 3 => byte(head[2]).map(Colour::Index),
+            Some(2) if head.len() == 5 => match (byte(head[2]), byte(head[3]), byte(head[4])) {
+                (Some(r), Some(g), Some(b)) => Some(Colour::Rgb(r, g, b)),
+                _ => None,
+            },
+            Some(2) if head.len() >= 6 => match (byte(head[3]), byte(head[4]), byte(head[5])) {
+                (Some(r), Some(g), Some(b)) => Some(Colour::Rgb(r, g, b)),
+                _ => None,
+            },
+            _ => None,
+        };
+        return (colour, 0);
+    }
+    // legacy ';' form: 5;n consumes one, 2;r;g;b consumes exactly three further parameters
+    let main = |i: usize| params.get(at + i).filter(|p| p.len() == 1).map(|p| p[0]);
+    match main(1) {
+        Some(Some(5)) => match main(2) {
+            Some(n) => (byte(n).map(Colour::Index), 2),
+            None => (None, params.len() - at - 1),
+        },
+        Some(Some(2)) => match (main(2), main(3), main(4)) {
+            (Some(r), Some(g), Some(b)) => (
+                match (byte(r), byte(g), byte(b)) {
+                    (Some(r), Some(g), Some(b)) => Some(Colour::Rgb(r, g, b)),
+                    _ => None,
+                },
+                4,
+            ),
+            _ => (None, params.len() - at - 1),
+        },
+        _ => (None, params.len() - at - 1),
+    }
+}
+
+/// Apply the parameters of one `CSI ... m` to `r`.
+pub fn apply(r: &mut Rendition, params: &[Param]) -> Vec<Note> {
+    let mut notes = Vec::new();
+    if params.is_empty() {
+        *r = Rendition::default();
+        return notes;
+    }
+    let mut i = 0;
+    while i < params.len() {
+        let p = &params[i];
+        let code = p.first().copied().flatten().unwrap_or(0);
+        match code {
+            0 => *r = Rendition::default(),
+            1 => r.bold = true,
+            22 => r.bold = false, // normal intensity (also ends faint, which is not modelled)
+            3 => r.italic = true,
+            23 => r.italic = false,
+            4 => {
+                r.underline = match p.get(1).copied() {
+                    None | Some(None) | Some(Some(1)) => Underline::Single,
+                    Some(Some(0)) => Underline::None,
+                    Some(Some(2)) => Underline::Double,
+                    Some(Some(3)) => Underline::Curly,
+                    Some(Some(4)) => Underline::Dotted,
+                    Some(Some(5)) => Underline::Dashed,
+                    Some(Some(_)) => {
+                        notes.push(Note::Unmodelled(4));
+                        r.underline
+                    }
+                }
+            }
+            21 => r.underline = Underline::Double,
+            24 => r.underline = Underline::None,
+            5 => r.blink = true,
+            25 => r.blink = false,
+            7 => r.reverse = true,
+            27 => r.reverse = false,
+            9 => r.strike = true,
+            29 => r.strike = false,
+            30..=37 => r.fg = Colour::Index((code - 30) as u8),
+            90..=97 => r.fg = Colour::Index((code - 90 + 8) as u8),
+            39 => r.fg = Colour::Default,
+            40..=47 => r.bg = Colour::Index((code - 40) as u8),
+            100..=107 => r.bg = Colour::Index((code - 100 + 8) as u8),
+            49 => r.bg = Colour::Default,
+            59 => r.underline_colour = Colour::Default,
+            38 | 48 | 58 => {
+                let (colour, used) = extended(params, i);
+                i += used;
+                match colour {
+                    Some(c) if code == 38 => r.fg = c,
+                    Some(c) if code == 48 => r.bg = c,
+                    Some(c) => r.underline_colour = c,
+                    None => notes.push(Note::MalformedColour(code)),
+                }
+            }
+            other => notes.push(Note::Unmodelled(other)),
+        }
+        i += 1;
+    }
+    notes
+}
+
+/// xterm's 256-colour table for indices 16..=255 (6x6x6 cube with levels 0,95,135,175,215,255,
+/// then the 24-step grey ramp 8+10*i). Indices 0..=15 are configurable in every terminal, so
+/// no value is given for them.
+pub fn xterm_rgb(index: u8) -> Option<(u8, u8, u8)> {
+    let level = |v: u8| if v == 0 { 0 } else { 55 + 40 * v };
+    match index {
+        0..=15 => None,
+        16..=231 => {
+            let i = index - 16;
+            Some((level(i / 36), level(i / 6 % 6), level(i % 6)))
+        }
+        _ => {
+            let v = 8 + 10 * (index - 232);
+            Some((v, v, v))
+        }
+    }
+}
+
+#[cfg(test)]
+mod tests {
+    use super::*;
+
+    fn p(s: &str) -> Vec<Param> {
+        if s.is_empty() {
+            return vec![];
+        }
+        s.split(';')
+            .map(|g| g.split(':').map(|v| v.parse().ok()).collect())
+            .collect()
+    }
+
+    #[test]
+    fn basics() {
+        let mut r = Rendition::default();
+        assert!(apply(&mut r, &p("1;4:3;38;2;1;2;3;48:2::4:5:6;58;5;9")).is_empty());
+        assert_eq!(r.fg, Colour::Rgb(1, 2, 3));
+        assert_eq!(r.bg, Colour::Rgb(4, 5, 6));
+        assert_eq!(r.underline_colour, Colour::Index(9));
+        assert!(r.bold && r.underline == Underline::Curly);
+        apply(&mut r, &p("22;24;39"));
+        assert!(!r.bold && r.underline == Underline::None && r.fg == Colour::Default);
+        apply(&mut r, &p("38;2;1;2;3;1"));
+        assert!(r.bold && r.fg == Colour::Rgb(1, 2, 3));
+        apply(&mut r, &p(""));
+        assert_eq!(r, Rendition::default());
+        assert_eq!(xterm_rgb(16), Some((0, 0, 0)));
+        assert_eq!(xterm_rgb(231), Some((255, 255, 255)));
+        assert_eq!(xterm_rgb(244), Some((128, 128, 128)));
+        assert_eq!(xterm_rgb(196), Some((255, 0, 0)));
+    }
+}
